@@ -1,51 +1,98 @@
 (* Props/C08.v -- property theorems only (C08: paged memory is a byte-addressed array with
-   independent clones).  Model: Mem/Paged.v (V = il::Constant); specification: Mem/PagedSpec.v. *)
+   independent clones).  Model: Mem/Paged.v (V = il::Constant), as repaired by the three fix:
+   commits; specification: Mem/PagedSpec.v.  [U] = unbounded, proved for all inputs. *)
 From Coq Require Import ZArith List Bool.
-From Falcon Require Import Base.Res IL.Const Mem.PagedTypes Mem.Paged Mem.PagedSpec Mem.PagedCells Mem.PagedProofs.
+From Falcon Require Import Base.Res IL.Const Mem.PagedTypes Mem.Paged Mem.PagedSpec Mem.PagedCells
+     Mem.PagedProofs Mem.PagedLoad Mem.PagedStore Mem.C08Check Mem.PagedClone.
 Local Open Scope Z_scope.
 
-(* widths 0 or not multiples of 8 are rejected, by store and by load *)
+(* [U] the representation invariant holds after ANY sequence of stores and set_permissions issued
+   through the API (u64 addresses, trimmed constants of < 2^63 bits) on a fresh memory that does
+   not panic (a panic = a store whose range reaches 2^64); rejected stores leave the memory as is *)
+Theorem inv_preserved : forall e b ops m, back_ok b -> Forall op_ok ops ->
+  run (mnew e b) ops = Ok m -> InvM m /\ back_ok (m_back m).
+Proof. intros e b ops m Hb F E. exact (run_good ops (mnew e b) m (good_new e b Hb) F E). Qed.
+Print Assumptions inv_preserved.
+
+(* [U] store: every memory satisfying the invariant, every address, every constant of k >= 1 bytes
+   with a + k < 2^64, both endiannesses, any page crossing / overlap: no error, invariant preserved,
+   backing/endianness/page permissions untouched, byte array := write of the k bytes *)
+Theorem abs_store : forall (m : @mem const) a v,
+  InvM m -> back_ok (m_back m) -> wfv v -> 0 <= a -> a + vk v < 2^64 ->
+  exists m', Paged.store COps m a v = Ok m' /\ InvM m' /\ frame m m' /\
+     forall x, mabs m' x = store_spec (m_end m) (mabs m) a v x.
+Proof. exact abs_store_l. Qed.
+Print Assumptions abs_store.
+
+(* [U] load: all widths 8n, n >= 1, all addresses with a + n <= 2^64, both endiannesses: the result
+   is exactly the n most recently stored / backed bytes assembled in the memory's endianness, and
+   None iff one of them is absent (load_spec) *)
+Theorem abs_load : forall (m : @mem const) a n,
+  InvM m -> back_ok (m_back m) -> 1 <= n -> 8 * n < 2^63 -> 0 <= a -> a + n <= 2^64 ->
+  load COps m a (8 * n) = Ok (load_spec (m_end m) (mabs m) a n).
+Proof. exact abs_load_l. Qed.
+Print Assumptions abs_load.
+
+(* [U] widths 0 or not multiples of 8 are rejected, by store and by load *)
 Theorem reject_bad_width : forall (m : @mem const) a v bits,
   (cbits v mod 8 <> 0 \/ cbits v = 0 -> Paged.store COps m a v = Err ECustom) /\
   (bits mod 8 <> 0 \/ bits = 0 -> load COps m a bits = Err ECustom).
 Proof. intros. split; [apply store_bad_width|apply load_bad_width]. Qed.
 Print Assumptions reject_bad_width.
 
-(* equality is reflexive: a memory equals its unmodified clone (a clone is the same value in the model) *)
+(* [U] equality is reflexive: a memory equals its unmodified clone (a clone is the same value in the model) *)
 Theorem eq_refl_clone : forall (m : @mem const), mem_eqb COps m m = true.
 Proof. exact mem_eqb_refl. Qed.
 Print Assumptions eq_refl_clone.
 
-(* equality implies identical results for every load *)
+(* [U] equality implies identical results for every load *)
 Theorem eq_implies_same_loads : forall (m1 m2 : @mem const), mem_eqb COps m1 m2 = true ->
   forall a bits, load COps m1 a bits = load COps m2 a bits.
 Proof. exact eq_same_loads. Qed.
 Print Assumptions eq_implies_same_loads.
 
-(* permissions set on a range (below 2^64, shorter than 2^63) are reported for every address in it *)
+(* [U] permissions set on a range (below 2^64, shorter than 2^63) are reported for every address in it *)
 Theorem perm_range : forall (m m' : @mem const) a len p,
   0 <= a -> 0 <= len < 2^63 -> a + len <= 2^64 ->
   set_permissions m a len p = Ok m' -> forall x, a <= x < a + len -> permissions m' x = Some p.
 Proof. exact perm_range_l. Qed.
 Print Assumptions perm_range.
 
-(* addresses on pages whose permissions were never set report the backing's *)
-Theorem perm_default_backing : forall (m : @mem const) x,
-  pperm m (page_addr x) = None -> permissions m x = ob_perm (m_back m) x.
-Proof. exact perm_default_backing_l. Qed.
+(* [U] addresses on pages whose permissions were never set report the backing's; set_permissions
+   leaves every page outside page(a)..page(a+len-1) as it was *)
+Theorem perm_default_backing : forall (m : @mem const),
+  (forall x, pperm m (page_addr x) = None -> permissions m x = ob_perm (m_back m) x) /\
+  (forall e b pa, pperm (mnew e b : @mem const) pa = None) /\
+  (forall m' a len p, 0 <= a -> 0 <= len < 2^63 -> a + len <= 2^64 -> set_permissions m a len p = Ok m' ->
+     forall x, page_addr x < page_addr a \/ a + len <= page_addr x -> permissions m' x = permissions m x).
+Proof.
+  intros m. split; [exact (perm_default_backing_l m)|]. split; [exact pperm_new|].
+  intros m' a len p. exact (set_permissions_other m m' a len p).
+Qed.
 Print Assumptions perm_default_backing.
 
-(* stores never change reported permissions *)
+(* [U] stores never change reported permissions *)
 Theorem store_keeps_perms : forall (m : @mem const) a v m',
   Paged.store COps m a v = Ok m' -> forall x, permissions m' x = permissions m x.
 Proof. exact store_keeps_perms_l. Qed.
 Print Assumptions store_keeps_perms.
 
-(* cell level (unbounded addresses): the three-phase store preserves the representation invariant
-   and is "write these bytes, leave everything else" on the byte abstraction *)
+(* clone independence: immediate in a pure model (a store through handle h leaves every other
+   handle's memory, hence every load through it, unchanged); in Rust this is RC::make_mut under
+   &mut self, i.e. safe-Rust ownership, which is TRUSTED, not proved *)
+Theorem store_clone_indep : forall backs st h a vw vv ob st' h',
+  mstep backs st (OStore h a vw vv) = Some (ob, Some st') -> h' <> h -> nth_error st' h' = nth_error st h'.
+Proof. exact store_clone_indep_l. Qed.
+Print Assumptions store_clone_indep.
+
+(* [U] cell level (unbounded addresses): the three-phase store preserves the invariant and is a write *)
 Theorem cells_store_refines : forall e c a v back, Inv c -> wfv v ->
   Inv (cstore e c a v) /\
   forall x, abs e back (cstore e c a v) x =
             if (a <=? x) && (x <? a + vk v) then Some (bo e v (x - a)) else abs e back c x.
 Proof. exact store_refines. Qed.
 Print Assumptions cells_store_refines.
+
+(* the hypotheses are satisfiable: a fresh memory over any well-formed backing satisfies them *)
+Example fresh_memory_good : forall e, InvM (mnew e None : @mem const) /\ back_ok None.
+Proof. intros e. apply good_new. intros x y E. discriminate. Qed.
